@@ -22,6 +22,11 @@ pub assume_specification<'a> [<String as From<&'a str>>::from] (s: &str) -> (r: 
     ensures r@ == s@;
 }
 verus! {
+// String::len: the length of the UTF-8 form - one to four bytes for each character (no more is stated)
+pub assume_specification [String::len] (s: &String) -> (r: usize)
+    ensures s@.len() <= r <= 4 * s@.len();
+}
+verus! {
 // T-FMT (opaque form): a formatted string whose content no property depends on (error/log text)
 #[verifier::external_body]
 pub fn opaque_string() -> String { String::new() }
@@ -143,6 +148,19 @@ pub mod stdcap {
         ensures r@.len() == 0 { Vec::with_capacity(n) }
     }
 }
+pub mod vecext {
+    use vstd::prelude::*;
+    verus! {
+    // Vec::extend(X) for the argument types whose meaning is "append these elements in order" (rule T-STR renames the call)
+    pub trait VecExtendX<A> { fn extend_x(&mut self, a: A); }
+    impl<T> VecExtendX<Vec<T>> for Vec<T> {
+        #[verifier::external_body] fn extend_x(&mut self, a: Vec<T>) ensures final(self)@ == old(self)@ + a@ { self.extend(a) } }
+    impl<'a, T: Copy> VecExtendX<&'a Vec<T>> for Vec<T> {
+        #[verifier::external_body] fn extend_x(&mut self, a: &'a Vec<T>) ensures final(self)@ == old(self)@ + a@ { self.extend(a) } }
+    impl<'a, T: Copy> VecExtendX<&'a [T]> for Vec<T> {
+        #[verifier::external_body] fn extend_x(&mut self, a: &'a [T]) ensures final(self)@ == old(self)@ + a@ { self.extend(a) } }
+    }
+}
 pub mod strext {
     use vstd::prelude::*;
     verus! {
@@ -209,6 +227,7 @@ pub mod strext {
     }
 }
 pub use crate::strext::StrExt;
+pub use crate::vecext::VecExtendX;
 verus! {
 // Result::or(res): the argument has been evaluated already (it is a value, not a closure)
 pub assume_specification<T, E, F> [std::result::Result::<T, E>::or::<F>] (a: std::result::Result<T, E>, b: std::result::Result<T, F>) -> (r: std::result::Result<T, F>)
